@@ -28,7 +28,8 @@ from . import e2e
 PROP = "C13"
 LEDGER = "../../../../play.ledger"      # from <cwd>/out/<run>/artifacts/<actor> back to the play's cwd
 VARS = ["V0", "V1", "V2"]
-ACTION_NAMES = ["go", "stop", "ping", "reload", "flush", "tick", "wipe", "sync"]
+# identifiers may contain symbols (\\p{S}): such names end up in the generated scripts and in the log file names
+ACTION_NAMES = ["go", "stop", "ping", "reload", "flush", "tick", "wipe", "sync", "up>down", "$cost", "t=1", "n^2", "x<y", "`bq"]
 
 
 def with_text(rng, vals, multiline_ok=True):
@@ -71,13 +72,13 @@ def gen_cast(rng, ledger):
         eff[name] = {"actions": base["actions"] + [(n, name) for n in acts],
                      "spotlight": name if spot else base["spotlight"], "cleanup": name if clean else base["cleanup"]}
     cast, actors = [], []
-    bases = ["a", "b", "c", "d"]
+    bases = ["a", "b", "c<5", "d$"]   # actor names are identifiers too: symbols allowed
     for k in range(rng.range(1, 4)):
         if len(actors) >= 5:
             break
         role = "r%d" % rng.below(nroles)
         mul = None if rng.chance(1, 2) else rng.pick([1, 2, 2, 3] + ([0] if not ledger else []))
-        vals = {v: "%s%d%s" % (bases[k], rng.below(90), rng.pick(["", "", " x", "%", "%d", "%%", "%3", " 5%s"])) for v in VARS if rng.chance(1, 2)}
+        vals = {v: "%s%d%s" % (bases[k][0], rng.below(90), rng.pick(["", "", " x", "%", "%d", "%%", "%3", " 5%s"])) for v in VARS if rng.chance(1, 2)}
         w = with_text(rng, vals)
         cast.append({"base": bases[k], "mul": mul, "role": role, "with": w, "vals": vals})
         if mul is None:
@@ -89,8 +90,9 @@ def gen_cast(rng, ledger):
 
 
 def ledger_cmd(role, act):
-    fields = ["L", role, act, "$0", "$PWD", "${TMPDIR-unset}", "${HOME-unset}", "${i-unset}"] + ["${%s-unset}" % v for v in VARS]
-    return 'echo "%s" >> %s' % ("|".join(fields), LEDGER)
+    fields = ["$0", "$PWD", "${TMPDIR-unset}", "${HOME-unset}", "${i-unset}"] + ["${%s-unset}" % v for v in VARS]
+    # (role and action names between single quotes: a name may contain `$`, `<`, a back quote …)
+    return "echo 'L|%s|%s|'\"%s\" >> %s" % (role, act, "|".join(fields), LEDGER)
 
 
 def fill_commands(rng, g, ledger):
@@ -100,7 +102,7 @@ def fill_commands(rng, g, ledger):
     for r in g["roles"]:
         for n in r["actions"]:
             if ledger:
-                cmds[(r["name"], n)] = ledger_cmd(r["name"], n) + '; echo "OUT-%s-$(basename $PWD)"' % n
+                cmds[(r["name"], n)] = ledger_cmd(r["name"], n) + "; echo 'OUT-%s-'\"$(basename \"$PWD\")\"" % n
             else:
                 pieces = [rng.pick(["echo hi", "true", "sleep 0", "echo \"$PWD\" 'q  q'", "x=1; echo $x", "cat <<< y | tr y z", "echo é ✓", "set -x", "cd /", "exec >>other.log"])
                           for _ in range(rng.range(1, 3))]
@@ -109,7 +111,7 @@ def fill_commands(rng, g, ledger):
             cmds[(r["name"], "_spotlight")] = (ledger_cmd(r["name"], "_spotlight") + '; while true; do echo "v $((100 + ${i-50}))"; sleep 0.03; done') if ledger \
                 else rng.pick(["tail -F x.log", "while true; do date; sleep 1; done", "echo a\necho b"])
         if r["cleanup"]:
-            cmds[(r["name"], "_cleanup")] = (ledger_cmd(r["name"], "_cleanup") + '; echo "OUT-_cleanup-$(basename $PWD)"') if ledger \
+            cmds[(r["name"], "_cleanup")] = (ledger_cmd(r["name"], "_cleanup") + '; echo "OUT-_cleanup-$(basename "$PWD")"') if ledger \
                 else rng.pick(["rm -f x.log", "true", "echo cleaning; rm -rf tmp"])
     g["cmds"] = cmds
     g["via"] = []
@@ -127,7 +129,7 @@ def fill_commands(rng, g, ledger):
             tact = rng.pick(tacts)[0]
             n = "via%s" % r["name"]
             r["actions"].append(n)
-            cmds[(r["name"], n)] = '../%s/actions/%s.sh; echo "OUT-%s-$(basename $PWD)"' % (target["name"], tact, n)
+            cmds[(r["name"], n)] = "'../%s/actions/%s.sh'; echo 'OUT-%s-'\"$(basename \"$PWD\")\"" % (target["name"], tact, n)
             g["via"].append({"role": r["name"], "action": n, "target": target["name"], "target_action": tact})
         # recompute the effective roles with the via actions
         eff = {}
@@ -315,7 +317,10 @@ def run(tier, seed):
             if not any(g["eff"][a["role"]]["actions"] for a in g["actors"]):
                 continue
             text = config_text(g, True)
-            plays.append(e2e.Play(text, args=["-k", "-q"], outdir_arg="out", timeout=90, keep=True))
+            # every third play lives in an output directory whose name the shell must not interpret
+            odir = "out" if len(plays) % 3 else "o'q $HOME `x` <y>"
+            rep.count("e2e:output directory " + ("plain" if odir == "out" else "with quote, $, back quotes, blanks"))
+            plays.append(e2e.Play(text, args=["-k", "-q"], outdir_arg=odir, timeout=90, keep=True))
             gs.append((g, text))
         results = e2e.run_many(plays, workers=12)
         for p, r, (g, text) in zip(plays, results, gs):
@@ -332,7 +337,7 @@ def run(tier, seed):
                 continue
             rt, ct = tokens(g)
             runid = os.path.basename(r["rundir"])
-            m = model.ask("C13 scripts %s %s %s %s %s %s" % (hexs("/bin/bash"), hexs(r["cwd"]), hexs("out"), hexs(runid), rt, ct))
+            m = model.ask("C13 scripts %s %s %s %s %s %s" % (hexs("/bin/bash"), hexs(r["cwd"]), hexs(p.outdir_arg or "out"), hexs(runid), rt, ct))
             mm = parse_model_scripts(m) if m not in (None, "rejected", "bad-op") else None
             if mm is None:
                 kdis.append({"config": text, "model": m})
